@@ -1,16 +1,17 @@
 (* C05 (and C04) end to end: 1-3 caller threads issuing synchronous calls on their own
    channels and checking each reply against its own call, plus a consumer, on a real
    connection that dies in one of seven ways at a random moment.
-   case = (fault 1 EOF / 2 reset / 3 malformed data / 4 write error / 5 server close 320 /
+   case = (fault 0 the client closes the connection itself while the callers are busy / 1 EOF / 2 reset / 3 malformed data / 4 write error / 5 server close 320 /
            6 silence with h = 1 s / 7 a frame answered by a client exception,
            per thread (calls that succeeded, ended with an error, ms from the fault to it),
            number of threads, consumer (last terminal message 6 = ServerClosedConnection, queue
            disconnected), what close() returned, transport released, some thread never came
-           back, some reply was not the reply to the call that got it) *)
+           back, some reply was not the reply to the call that got it, fault 0 only: the
+           client's Connection.Close is the last frame it sent and the wire is whole frames) *)
 From Amq Require Export Lib.Base Gen.Consts Model.Wire Model.Frames Model.OutBuf Model.Collector
      Model.Slots Model.Core.
 
-Definition case := (N * list (N * bool * N) * N * (N * bool) * N * bool * bool * bool)%type.
+Definition case := (N * list (N * bool * N) * N * (N * bool) * N * bool * bool * bool * bool)%type.
 
 Definition code_of (o : outcome) : N :=
   match o with
@@ -29,6 +30,7 @@ Definition code_of (o : outcome) : N :=
 Definition model_code (fault : N) : N :=
   let c0 := init_core 100 16 in
   match fault with
+  | 0 => code_of (final_result (set_phase c0 PClientClosed))
   | 1 => code_of (term_outcome TEof)
   | 2 => code_of (term_outcome TIoErr)
   | 3 => code_of (term_outcome TMalformed)
@@ -38,20 +40,20 @@ Definition model_code (fault : N) : N :=
   | _ => let '(_, c1) := process c0 (FMethod 1 MIllegal, []) in code_of (final_result c1)
   end.
 
-Definition model_out (c : case) : N := let '(fault, _, _, _, _, _, _, _) := c in model_code fault.
+Definition model_out (c : case) : N := let '(fault, _, _, _, _, _, _, _, _) := c in model_code fault.
 Definition model_agrees (c : case) : bool :=
-  let '(fault, _, _, _, code, _, _, _) := c in code =? model_code fault.
+  let '(fault, _, _, _, code, _, _, _, _) := c in code =? model_code fault.
 
 (* the property on the observations: nobody hangs, every caller gets an error in bounded time,
    the consumer's queue ends, close() names the root cause, the transport is released - and
    (C04) no caller ever got somebody else's reply *)
 Definition oracle_ok (c : case) : bool :=
-  let '(fault, threads, nthreads, (terminal, disconnected), code, released, hang, misrouted) := c in
+  let '(fault, threads, nthreads, (terminal, disconnected), code, released, hang, misrouted, wire_ok) := c in
   negb hang && (N.of_nat (length threads) =? nthreads) &&
   forallb (fun '(_, err, ms) => err && (ms <=? (if fault =? 6 then 4500 else 3000))) threads &&
   disconnected && released && negb misrouted &&
-  (code =? fault) &&
-  (if fault =? 5 then terminal =? 6 else true).
+  (code =? fault) && wire_ok &&
+  (if fault =? 5 then terminal =? 6 else if fault =? 0 then terminal =? 5 else true).
 
 Fixpoint bad_idx {A} (f : A -> bool) (i : N) (l : list A) : list N :=
   match l with [] => [] | x :: r => if f x then bad_idx f (i + 1) r else i :: bad_idx f (i + 1) r end.
